@@ -168,12 +168,18 @@ func SafeRun(prop Property, p *Plan) (res *Result) {
 // Minimise shrinks a failing plan while the same violation class persists.
 // It first turns a generating-mode plan into an explicit one.
 func Minimise(prop Property, p *Plan, first *Result, maxRuns int) (*Plan, *Result, int) {
+	return MinimiseWith(prop, p, first, maxRuns, func(q *Plan) *Result { return SafeRun(prop, q) })
+}
+
+// MinimiseWith is Minimise with a caller-supplied executor (in-process, or a
+// fresh process per candidate when the violation depends on process state).
+func MinimiseWith(prop Property, p *Plan, first *Result, maxRuns int, run func(q *Plan) *Result) (*Plan, *Result, int) {
 	runs := 0
 	class := first.Violation.Class
 	same := func(q *Plan) *Result {
 		runs++
-		r := SafeRun(prop, q)
-		if r.Infra == "" && r.Violation != nil && r.Violation.Class == class {
+		r := run(q)
+		if r != nil && r.Infra == "" && r.Violation != nil && r.Violation.Class == class {
 			return r
 		}
 		return nil
@@ -261,3 +267,6 @@ func Guard(f func()) (panicked interface{}, blown bool) {
 	f()
 	return nil, simrt.Blown()
 }
+
+// Subcommands lets property packages add process entry points (fresh-process references).
+var Subcommands = map[string]func(args []string) int{}
